@@ -6,6 +6,8 @@ CONSTANTS
   Strategies = {"MASTER", "BOTH", "REPLICA"}
   Kinds = {"read", "write"}
   MaxReq = 1
+  MaxUpdates = 0
+  StickyStrategy = FALSE
   SharedScratch = FALSE
 INVARIANTS TypeOK OnlySupportedReachBackends WritesToOwningMaster RoutedWithinOwnerFamily
 CHECK_DEADLOCK FALSE
